@@ -47,6 +47,8 @@ MPI_PLATFORMS = [
 BASE_LOG = "--log=root.thres:critical"
 # VERIF_C47_WILD=1: no case avoids the triggers of the open known findings (to be used on a tree where they are fixed)
 ALL_WILD = os.environ.get("VERIF_C47_WILD") == "1"
+# VERIF_C47_NOASAN=1: development knob, skips the ASan+UBSan leg (e.g. on a scratch worktree whose asan flavour is not built)
+NO_ASAN = os.environ.get("VERIF_C47_NOASAN") == "1"
 
 
 def _norm_msg(m):
@@ -377,7 +379,7 @@ def run(ctx):
     r = Runner(ctx)
     try:
         oracle_selftest(ctx, r)
-        for fl in ("hooks", "asan"):
+        for fl in ("hooks",) if NO_ASAN else ("hooks", "asan"):
             build.harness("trace.cpp", fl)
         build.smpicc("mpi/tracemix.c", "hooks")
         n_s4u = ctx.size(220, 6000)
@@ -407,7 +409,7 @@ def run(ctx):
             if i < 4:
                 ctx.sample({"kind": "s4u", "opts": opts, "features": sc["feat"], "text": sc["text"][:600]})
             jobs.append(("s4u", sc["text"], opts, "hooks", "s4u"))
-            if i % 10 == 0:
+            if i % 10 == 0 and not NO_ASAN:
                 jobs.append(("s4u", sc["text"], opts, "asan", "s4u"))
         for m, opts in DIRECTED_MPI:
             jobs.append(("mpi", m, opts))
